@@ -73,7 +73,7 @@ func udClassify(ref, q, t string, thresh float32) (bin, dist int, ok bool) {
 			dist++
 		}
 	}
-	if float32(amb)/float32(Q+QT+T+amb) > thresh {
+	if float32(amb)/float32(Q+QT+T+amb) > thresh { // --threshold-pair is a float32 flag; the proportion is compared in its precision
 		return 0, 0, false
 	}
 	switch {
@@ -430,12 +430,61 @@ func genC08(r *Rand, tier string, ord int) *Trial {
 	}
 	w := r.Range(3, 20)
 	nq, nt := r.Range(1, 4), r.Range(1, 16)
+	kind := "generated"
+	switch {
+	case r.P(0.002): // more targets than any plausible fixed-size re-ordering window; many ties (file order decides)
+		w, nq, nt, kind = r.Range(2, 4), r.Range(1, 2), r.Range(1030, 1400), "generated-thousand-targets"
+	case r.P(0.004):
+		w, nq, nt, kind = r.Range(3, 6), r.Range(1, 3), r.Range(100, 300), "generated-hundreds-of-targets"
+	case r.P(0.002): // widths around powers of two (gen.go, scale)
+		w, nq, nt, kind = scaleWidthUpTo(r, 16), r.Range(1, 2), r.Range(2, 6), "generated-wide"
+	}
 	ref, q, tg := genUpdownAln(r, w, nq, nt)
+	if kind == "generated-wide" {
+		for i := range tg.Seqs {
+			tg.Seqs[i] = tailSNPs(r, ref, tg.Seqs[i])
+		}
+	}
 	c := Case{Cmd: "topranking", Files: map[string]string{"ref": ">ref\n" + ref + "\n", "query": q.FASTA(genLayout(r)), "target": tg.FASTA(genLayout(r))}}
 	c.Opts = genTROpts(r, tg.Names)
 	c.Opts.QType, c.Opts.TType, c.Opts.Threads = "fasta", "fasta", 1
-	t.Kind, t.Case = "generated", c
+	if kind == "generated" && r.P(0.04) {
+		// a pair whose ambiguity proportion is exactly a/s for any 1 <= a < s <= 20, and --threshold-pair = a/s:
+		// the pair passes (the test is ">"), whatever way a/s rounds in the flag's precision
+		sN := r.Range(2, 20)
+		a := r.Range(1, sN-1)
+		if w < sN {
+			w = sN + r.Range(0, 4)
+			ref, q, tg = genUpdownAln(r, w, nq, nt)
+			c.Files["ref"] = ">ref\n" + ref + "\n"
+		}
+		cols := r.Perm(w)[:sN]
+		qb, tb := []byte(ref), []byte(ref)
+		for i, j := range cols {
+			qb[j] = "ACGT"[(strings.IndexByte("ACGT", ref[j])+1+r.Intn(3))%4]
+			if i < a {
+				tb[j] = "N-?R"[r.Intn(4)]
+			}
+		}
+		q.Seqs[0] = string(qb)
+		tg.Seqs[r.Intn(nt)] = string(tb)
+		c.Files["query"], c.Files["target"] = q.FASTA(genLayout(r)), tg.FASTA(genLayout(r))
+		c.Opts.ThreshPair = float32(a) / float32(sN)
+		c.Opts.Ignore = nil
+		kind = "generated-threshold-boundary"
+	} else if r.P(0.25) {
+		// --threshold-pair exactly at the ambiguity proportion of one of the pairs (the pair passes: the test is ">")
+		if amb, sum := udAmbProportion(upper(ref), upper(q.Seqs[r.Intn(nq)]), upper(tg.Seqs[r.Intn(nt)])); sum > 0 {
+			c.Opts.ThreshPair = float32(amb) / float32(sum)
+			if r.P(0.3) { // ... as the user would type it
+				v, _ := strconv.ParseFloat(strconv.FormatFloat(float64(amb)/float64(sum), 'f', 2, 64), 32)
+				c.Opts.ThreshPair = float32(v)
+			}
+		}
+	}
+	t.Kind, t.Case = kind, c
 	t.Runs = genRunCfgs(r, 2)
+	manyTargetRuns(r, t.Runs, kind, nt)
 	return t
 }
 
@@ -503,4 +552,49 @@ func checkC08(t *Trial, ctx *Ctx) *Failure {
 		ctx.Nontrivial()
 	}
 	return nil
+}
+
+// manyTargetRuns shapes the schedules of the many-target and wide families: one stage (the reader, one of the
+// converters, the re-ordering stage, ...) is held back while hundreds of later records overtake it, on at
+// least two processors; wide inputs are not read byte by byte.
+func manyTargetRuns(r *Rand, rcs []RunCfg, kind string, nt int) {
+	switch kind {
+	case "generated-thousand-targets", "generated-hundreds-of-targets":
+		scaleHorizon(rcs, 10*nt)
+		for i := range rcs {
+			rcs[i].Chunk = 3 * (i % 2)
+			if rcs[i].NumCPU < 2 {
+				rcs[i].NumCPU = r.PickInt(2, 3, 4, 8)
+			}
+			switch r.Intn(3) {
+			case 0:
+				rcs[i].Strat = simrt.Strategy{Kind: simrt.StratStarve, SwitchP: []float64{0.1, 0.3, 1}[r.Intn(3)], StarveMask: 1 << uint(r.Range(1, 8)), SelectRand: true}
+			case 1:
+				rcs[i].Strat = simrt.Strategy{Kind: simrt.StratPCT, Depth: r.Range(1, 3), Horizon: 8 * nt, SelectRand: true}
+			}
+		}
+	case "generated-wide":
+		wideRuns(rcs)
+	}
+}
+
+// udAmbProportion is the pair's ambiguity proportion as (ambiguous consequential sites, all consequential sites).
+func udAmbProportion(ref, q, t string) (amb, sum int) {
+	for j := 0; j < len(ref); j++ {
+		qs := isACGT(q[j]) && q[j] != ref[j]
+		ts := isACGT(t[j]) && t[j] != ref[j]
+		if qs {
+			sum++
+			if !isACGT(t[j]) {
+				amb++
+			}
+		}
+		if ts && !(isACGT(q[j]) && q[j] == t[j]) {
+			sum++
+			if !isACGT(q[j]) {
+				amb++
+			}
+		}
+	}
+	return
 }
